@@ -99,6 +99,7 @@ var (
 	c34D   = common.HexToAddress("0xd000000000000000000000000000000000003406") // self-destructs to F2
 	c34CB  = common.HexToAddress("0xcb00000000000000000000000000000000003407") // fee recipient (absent before the block)
 	c34Pfx = "0xa0000000000000000000000000000000000034"                        // prober contracts a0..34NN
+	c34S2    = common.HexToAddress("0x5200000000000000000000000000000000003410") // second storage contract (slots: leaf + extension->branch)
 	c34Bank1 = common.HexToAddress("0xba00000000000000000000000000000000003408")
 	c34Bank2 = common.HexToAddress("0xbb00000000000000000000000000000000003409")
 )
@@ -111,7 +112,8 @@ type c34Unit struct {
 	data    []byte
 	prague  bool // needs Prague (EIP-7702)
 	setcode bool
-	core    bool // member of the sub-alphabet used for 3-transaction blocks
+	core    bool // quick tier: single-item removals are enumerated on 2-transaction blocks made of core units only (all blocks get the full-witness oracle)
+	tri     bool // member of the sub-alphabet used for 3-transaction blocks (thorough)
 }
 
 type c34World struct {
@@ -154,6 +156,90 @@ func c34Slots() (s1, s2, s3 uint64) {
 	panic("c34: no slot triple")
 }
 
+// c34SlotsExt finds slot numbers t1, t2, t3 such that the hashed keys of t2 and t3
+// share their first two nibbles and differ in the third, and t1 has another first
+// nibble: in a storage trie holding exactly these three slots the root branch has
+// the children leaf(t1) and extension(->branch{t2,t3}). Deleting t1 leaves the
+// root with a single child that is an extension node; deleting t2 collapses the
+// branch below the extension.
+func c34SlotsExt() (t1, t2, t3 uint64) {
+	hash := func(v uint64) common.Hash { return crypto.Keccak256Hash(c34Word(v)) }
+	for a := uint64(1); a < 4096; a++ {
+		for b := a + 1; b < 4096; b++ {
+			ha, hb := hash(a), hash(b)
+			if ha[0] != hb[0] || c34Nibble(ha, 2) == c34Nibble(hb, 2) {
+				continue
+			}
+			for c := uint64(1); c < 64; c++ {
+				if c34Nibble(hash(c), 0) != c34Nibble(ha, 0) {
+					return c, a, b
+				}
+			}
+		}
+	}
+	panic("c34: no slot triple with an extension")
+}
+
+// c34Candidates: a fixed list of candidate addresses with their hashes, computed
+// once, from which account-trie shapes are selected.
+var c34Candidates = sync.OnceValue(func() []struct {
+	addr common.Address
+	hash common.Hash
+} {
+	out := make([]struct {
+		addr common.Address
+		hash common.Hash
+	}, 300_000)
+	for i := range out {
+		out[i].addr = common.BytesToAddress([]byte{0x34, 0xc2, byte(i >> 16), byte(i >> 8), byte(i)})
+		out[i].hash = crypto.Keccak256Hash(out[i].addr[:])
+	}
+	return out
+})
+
+// c34AccountShape selects three absent addresses z, q1, q2 whose hashed keys all
+// start with the same two nibbles (a prefix no address in `taken` uses), where q1
+// and q2 share their first `shared` nibbles and differ in the next one, and z
+// differs from them in the third nibble. With z an empty account and q1, q2 funded
+// accounts in genesis, the node at the two-nibble prefix is a branch with two
+// children: leaf(z) and - for shared == 3 - a branch {q1, q2}, for shared == 4 an
+// extension leading to the branch {q1, q2}. Deleting z leaves that branch with a
+// single child which is a branch / an extension node.
+func c34AccountShape(taken map[[2]byte]bool, shared int) (z, q1, q2 common.Address) {
+	cands := c34Candidates()
+	prefix := func(h common.Hash, n int) string {
+		b := make([]byte, n)
+		for i := range b {
+			b[i] = c34Nibble(h, i)
+		}
+		return string(b)
+	}
+	first := map[string]int{}
+	for i, c := range cands {
+		p2 := [2]byte{c34Nibble(c.hash, 0), c34Nibble(c.hash, 1)}
+		if taken[p2] {
+			continue
+		}
+		key := prefix(c.hash, shared)
+		j, ok := first[key]
+		if !ok {
+			first[key] = i
+			continue
+		}
+		if c34Nibble(cands[j].hash, shared) == c34Nibble(c.hash, shared) {
+			continue
+		}
+		// q1 = cands[j], q2 = c; now z: same two-nibble prefix, other third nibble
+		for _, zc := range cands {
+			if prefix(zc.hash, 2) == prefix(c.hash, 2) && c34Nibble(zc.hash, 2) != c34Nibble(c.hash, 2) {
+				taken[p2] = true
+				return zc.addr, cands[j].addr, c.addr
+			}
+		}
+	}
+	panic("c34: no account shape found")
+}
+
 func c34Prober(i int) common.Address { return common.HexToAddress(fmt.Sprintf("%s%02x", c34Pfx, i)) }
 
 func c34NewWorld(f c34Fork) *c34World {
@@ -164,6 +250,7 @@ func c34NewWorld(f c34Fork) *c34World {
 	}
 	w.e = crypto.PubkeyToAddress(c34KeyE.PublicKey)
 	s1, s2, s3 := c34Slots()
+	t1, t2, t3 := c34SlotsExt()
 
 	// S: calldatasize%64 == 32: return SLOAD(cd[0]); otherwise for every (key,value) pair in calldata SSTORE(key,value).
 	sRead := program.New().Push(0).Op(vm.CALLDATALOAD, vm.SLOAD).Push(0).Op(vm.MSTORE).Return(0, 32).Bytes()
@@ -208,6 +295,11 @@ func c34NewWorld(f c34Fork) *c34World {
 		common.BytesToHash(c34Word(s2)): common.BytesToHash(c34Word(0x22)),
 		common.BytesToHash(c34Word(s3)): common.BytesToHash(c34Word(0x33)),
 	}}
+	alloc[c34S2] = types.Account{Code: sCode, Nonce: 1, Balance: common.Big0, Storage: map[common.Hash]common.Hash{
+		common.BytesToHash(c34Word(t1)): common.BytesToHash(c34Word(0x41)),
+		common.BytesToHash(c34Word(t2)): common.BytesToHash(c34Word(0x42)),
+		common.BytesToHash(c34Word(t3)): common.BytesToHash(c34Word(0x43)),
+	}}
 	alloc[c34T] = types.Account{Code: tCode, Nonce: 1, Balance: common.Big0}
 	alloc[c34D] = types.Account{Code: dCode, Nonce: 1, Balance: big.NewInt(900)}
 	// BANKn: called with calldata: CALL(peer, value 7); called without (the peer's payment): STOP
@@ -248,59 +340,111 @@ func c34NewWorld(f c34Fork) *c34World {
 	for i, p := range probers {
 		addr := c34Prober(i)
 		alloc[addr] = types.Account{Code: p.code, Nonce: 1, Balance: common.Big0}
-		units = append(units, c34Unit{name: p.name, sender: i % 2, to: addr, core: p.core})
+		units = append(units, c34Unit{name: p.name, sender: i % 2, to: addr, core: p.core, tri: p.name == "CREATE2"})
 	}
 	// CREATE2 onto an address that already holds a contract
 	alloc[collider] = types.Account{Code: store0(program.New().Create2(collideInit, 9).Push(1).Op(vm.ADD)), Nonce: 1, Balance: common.Big0}
 	alloc[collideAt] = types.Account{Code: tCode, Nonce: 1, Balance: common.Big0, Storage: map[common.Hash]common.Hash{{31: 1}: {31: 1}}}
 	units = append(units, c34Unit{name: "CREATE2_COLLISION", sender: 0, to: collider})
 
-	// Z: an empty account that exists in genesis, whose hashed address shares its
-	// first nibble with exactly one other account (so deleting it collapses a branch).
-	toucher := c34Prober(0x41)
-	count := map[byte]int{c34Nibble(crypto.Keccak256Hash(toucher[:]), 0): 1}
-	for a := range alloc {
-		count[c34Nibble(crypto.Keccak256Hash(a[:]), 0)]++
-	}
-	for i := 1; i < 4096 && w.z == (common.Address{}); i++ {
-		cand := common.BytesToAddress([]byte{0x2a, 0x34, byte(i >> 8), byte(i)})
-		if count[c34Nibble(crypto.Keccak256Hash(cand[:]), 0)] == 1 {
-			w.z = cand
-		}
-	}
-	if w.z == (common.Address{}) {
-		panic("c34: no suitable empty account")
-	}
-	alloc[w.z] = types.Account{Balance: common.Big0}
-	alloc[toucher] = types.Account{Code: program.New().Call(nil, w.z, 0, 0, 0, 0, 0).Op(vm.POP, vm.STOP).Bytes(), Nonce: 1, Balance: common.Big0}
-
+	toucher, toucher2, toucher3 := c34Prober(0x41), c34Prober(0x42), c34Prober(0x43)
 	pair := func(k, v uint64) []byte { return append(c34Word(k), c34Word(v)...) }
 	units = append(units,
-		c34Unit{name: "TOUCH_EMPTY_Z", sender: 1, to: toucher, core: true},
+		c34Unit{name: "TOUCH_EMPTY_Z", sender: 1, to: toucher, core: true, tri: true},
+		c34Unit{name: "TOUCH_EMPTY_Z2", sender: 0, to: toucher2, core: true, tri: true},
+		c34Unit{name: "TOUCH_EMPTY_Z3", sender: 1, to: toucher3, core: true, tri: true},
 		c34Unit{name: "TRANSFER_X", sender: 0, to: c34X, value: 3},
-		c34Unit{name: "TRANSFER_ABSENT", sender: 1, to: c34F, value: 4, core: true},
-		c34Unit{name: "S_CLEAR_1", sender: 0, to: c34S, data: pair(s1, 0), core: true},
-		c34Unit{name: "S_CLEAR_2", sender: 1, to: c34S, data: pair(s2, 0), core: true},
-		c34Unit{name: "S_CLEAR_ALL", sender: 0, to: c34S, data: append(append(pair(s1, 0), pair(s2, 0)...), pair(s3, 0)...), core: true},
-		c34Unit{name: "S_INSERT", sender: 1, to: c34S, data: pair(0x77, 0x99), core: true},
+		c34Unit{name: "TRANSFER_ABSENT", sender: 1, to: c34F, value: 4, core: true, tri: true},
+		c34Unit{name: "S_CLEAR_1", sender: 0, to: c34S, data: pair(s1, 0), core: true, tri: true},
+		c34Unit{name: "S_CLEAR_2", sender: 1, to: c34S, data: pair(s2, 0), core: true, tri: true},
+		c34Unit{name: "S_CLEAR_ALL", sender: 0, to: c34S, data: append(append(pair(s1, 0), pair(s2, 0)...), pair(s3, 0)...), core: true, tri: true},
+		c34Unit{name: "S_INSERT", sender: 1, to: c34S, data: pair(0x77, 0x99), core: true, tri: true},
+		// deletes chosen by the shape of the HASHED keys: the branch that loses a child keeps a single
+		// child which is a leaf (S_CLEAR_1/2 above), a branch (S_CLEAR_3: the two other slots of S share a
+		// nibble), an extension (T_CLEAR_1), and a delete below an extension (T_CLEAR_2)
+		c34Unit{name: "S_CLEAR_3", sender: 0, to: c34S, data: pair(s3, 0), core: true, tri: true},
+		c34Unit{name: "T_CLEAR_1", sender: 1, to: c34S2, data: pair(t1, 0), core: true, tri: true},
+		c34Unit{name: "T_CLEAR_2", sender: 0, to: c34S2, data: pair(t2, 0), core: true, tri: true},
 		// set a pre-existing slot to another value / back to its pre-block value (by another sender) /
 		// back to its pre-block value together with a net change of another slot: ordered selections
 		// contain change-then-restore, delete-then-restore, change-delete-restore (net-zero storage
 		// changes across transactions) and restore combined with another net change in the same contract
-		c34Unit{name: "S_SET_1_OTHER", sender: 0, to: c34S, data: pair(s1, 0x55), core: true},
-		c34Unit{name: "S_SET_1_ORIG", sender: 1, to: c34S, data: pair(s1, 0x11), core: true},
-		c34Unit{name: "S_RESTORE_1_SET_3", sender: 1, to: c34S, data: append(pair(s1, 0x11), pair(s3, 0x44)...), core: true},
+		c34Unit{name: "S_SET_1_OTHER", sender: 0, to: c34S, data: pair(s1, 0x55), core: true, tri: true},
+		c34Unit{name: "S_SET_1_ORIG", sender: 1, to: c34S, data: pair(s1, 0x11), core: true, tri: true},
+		c34Unit{name: "S_RESTORE_1_SET_3", sender: 1, to: c34S, data: append(pair(s1, 0x11), pair(s3, 0x44)...), core: true, tri: true},
 		// net-zero balance changes across transactions: BANK1 pays BANK2 7 wei, BANK2 pays BANK1 7 wei
 		c34Unit{name: "BANK1_PAYS", sender: 0, to: c34Bank1, data: []byte{1}},
 		c34Unit{name: "BANK2_PAYS", sender: 1, to: c34Bank2, data: []byte{1}},
 		c34Unit{name: "S_READ_2", sender: 0, to: c34S, data: c34Word(s2)},
 		c34Unit{name: "S_READ_ABSENT", sender: 1, to: c34S, data: c34Word(0x78)},
 		c34Unit{name: "S_NOOP_WRITE_3", sender: 0, to: c34S, data: pair(s3, 0x33)},
-		c34Unit{name: "SELFDESTRUCT_D", sender: 1, to: c34D, core: true},
+		c34Unit{name: "SELFDESTRUCT_D", sender: 1, to: c34D, core: true, tri: true},
 		c34Unit{name: "SETCODE_E", sender: 0, to: w.e, prague: true, setcode: true, core: true},
 		c34Unit{name: "CALL_E", sender: 1, to: w.e, prague: true, core: true},
 	)
 	w.units = units
+
+	// Account-trie shapes, selected last, when every other genesis account is known. Addresses that
+	// appear only during a block (absent recipients, fee recipient, created contracts, the 7702
+	// authority) are kept out of the selected prefixes as well.
+	for _, a := range []common.Address{toucher, toucher2, toucher3} {
+		alloc[a] = types.Account{Nonce: 1, Balance: common.Big0}
+	}
+	taken := map[[2]byte]bool{}
+	note := func(a common.Address) {
+		h := crypto.Keccak256Hash(a[:])
+		taken[[2]byte{c34Nibble(h, 0), c34Nibble(h, 1)}] = true
+	}
+	for a := range alloc {
+		note(a)
+	}
+	for _, a := range []common.Address{c34F, c34F2, c34CB, w.e, collideAt, crypto.CreateAddress2(c34Prober(7), common.BigToHash(big.NewInt(5)), crypto.Keccak256(initK))} {
+		note(a)
+	}
+	// Z2: deleting it leaves a branch whose only child is a branch; Z3: ... is an extension
+	z2, q1, q2 := c34AccountShape(taken, 3)
+	z3, r1, r2 := c34AccountShape(taken, 4)
+	for _, a := range []common.Address{q1, q2, r1, r2} {
+		alloc[a] = types.Account{Balance: big.NewInt(1)}
+	}
+	alloc[z2] = types.Account{Balance: common.Big0}
+	alloc[z3] = types.Account{Balance: common.Big0}
+	// Z: an empty account whose hashed address shares its first nibble with exactly one other
+	// account (a leaf): deleting it collapses that branch onto a leaf.
+	count := map[byte]int{}
+	for a := range alloc {
+		count[c34Nibble(crypto.Keccak256Hash(a[:]), 0)]++
+	}
+	for i := 1; i < 65536 && w.z == (common.Address{}); i++ {
+		cand := common.BytesToAddress([]byte{0x2a, 0x34, byte(i >> 8), byte(i)})
+		if count[c34Nibble(crypto.Keccak256Hash(cand[:]), 0)] == 1 {
+			w.z = cand
+		}
+	}
+	if w.z == (common.Address{}) {
+		// every first nibble holds two or more accounts: take a two-nibble prefix used by exactly one
+		count2 := map[[2]byte]int{}
+		for a := range alloc {
+			h := crypto.Keccak256Hash(a[:])
+			count2[[2]byte{c34Nibble(h, 0), c34Nibble(h, 1)}]++
+		}
+		for _, c := range c34Candidates() {
+			if count2[[2]byte{c34Nibble(c.hash, 0), c34Nibble(c.hash, 1)}] == 1 {
+				if _, used := alloc[c.addr]; !used {
+					w.z = c.addr
+					break
+				}
+			}
+		}
+	}
+	if w.z == (common.Address{}) {
+		panic("c34: no suitable empty account")
+	}
+	alloc[w.z] = types.Account{Balance: common.Big0}
+	touch := func(z common.Address) []byte { return program.New().Call(nil, z, 0, 0, 0, 0, 0).Op(vm.POP, vm.STOP).Bytes() }
+	alloc[toucher] = types.Account{Code: touch(w.z), Nonce: 1, Balance: common.Big0}
+	alloc[toucher2] = types.Account{Code: touch(z2), Nonce: 1, Balance: common.Big0}
+	alloc[toucher3] = types.Account{Code: touch(z3), Nonce: 1, Balance: common.Big0}
 	w.gspec = &Genesis{Config: f.cfg, Alloc: alloc, GasLimit: 30_000_000}
 	return w
 }
@@ -348,6 +492,7 @@ func (w *c34World) build(sel []int) (block *types.Block, receipts types.Receipts
 
 type c34Pool struct {
 	w    *c34World
+	path bool // path scheme instead of the default hash scheme
 	mu   sync.Mutex
 	free []*BlockChain
 	all  []*BlockChain
@@ -362,7 +507,11 @@ func (p *c34Pool) get() *BlockChain {
 		return c
 	}
 	p.mu.Unlock()
-	bc, err := NewBlockChain(rawdb.NewMemoryDatabase(), p.w.gspec, p.w.engine, nil)
+	var cfg *BlockChainConfig
+	if p.path {
+		cfg = DefaultConfig().WithStateScheme(rawdb.PathScheme)
+	}
+	bc, err := NewBlockChain(rawdb.NewMemoryDatabase(), p.w.gspec, p.w.engine, cfg)
 	if err != nil {
 		panic(fmt.Sprintf("c34: cannot create chain: %v", err))
 	}
@@ -412,8 +561,8 @@ func c34Selections(alphabet []int, k int) [][]int {
 func TestVerif_C34(t *testing.T) {
 	mc.Run(t, "C34", func(r *mc.R) {
 		maxLen := mc.Pick(r, 2, 3)
-		r.Rule("rule sets {cancun, prague, osaka, amsterdam} x every ordered selection of 1..2 units of the alphabet (3 over the core sub-alphabet in the thorough tier); " +
-			"each block: witness collected by BlockChain.ProcessBlock(MakeWitness) on genesis, RLP round trip, ExecuteStateless on the full witness and on the witness minus every single trie node and every single code blob; " +
+		r.Rule("rule sets {cancun, prague, osaka, amsterdam} x every ordered selection of 1..2 units of the alphabet (3 over the trie-shape / net-zero sub-alphabet in the thorough tier); " +
+			"each block: witness collected by BlockChain.ProcessBlock(MakeWitness) on genesis on a hash-scheme and on a path-scheme chain, RLP round trip, ExecuteStateless on each full witness, and on the hash-scheme witness minus every single trie node and every single code blob (quick: removals on 1-unit blocks and on 2-unit blocks of core units only); " +
 			"distinct = distinct (rule set, block, removed item) triples")
 		r.Bound("max_txs", maxLen)
 		r.Assume("pre-state = one genesis per rule set (hash scheme, snapshots enabled as in the default test chain); blocks built by core.GenerateChain")
@@ -440,20 +589,21 @@ func TestVerif_C34(t *testing.T) {
 			}
 			w := c34NewWorld(f)
 			pool := &c34Pool{w: w}
-			var all, core []int
+			pathPool := &c34Pool{w: w, path: true}
+			var all, tri []int
 			for i, u := range w.units {
 				if u.prague && !f.prague {
 					continue
 				}
 				all = append(all, i)
-				if u.core {
-					core = append(core, i)
+				if u.tri {
+					tri = append(tri, i)
 				}
 			}
 			sels := c34Selections(all, 1)
 			sels = append(sels, c34Selections(all, 2)...)
 			if maxLen >= 3 {
-				sels = append(sels, c34Selections(core, 3)...)
+				sels = append(sels, c34Selections(tri, 3)...)
 			}
 			r.Bound("alphabet."+f.name, len(all))
 			r.Bound("blocks."+f.name, len(sels))
@@ -468,14 +618,25 @@ func TestVerif_C34(t *testing.T) {
 				}
 				bc := pool.get()
 				defer pool.put(bc)
-				c34CheckBlock(r, w, bc, sel, names, fmt.Sprintf("%d/%06d", fi, i), silent)
+				pbc := pathPool.get()
+				defer pathPool.put(pbc)
+				// quick tier: removals on single-unit blocks and on blocks made of core units only
+				removals := r.Thorough() || len(sel) == 1
+				if !removals {
+					removals = true
+					for _, s := range sel {
+						removals = removals && w.units[s].core
+					}
+				}
+				c34CheckBlock(r, w, bc, pbc, sel, names, removals, fmt.Sprintf("%d/%06d", fi, i), silent)
 			})
 			pool.close()
+			pathPool.close()
 		}
 	})
 }
 
-func c34CheckBlock(r *mc.R, w *c34World, bc *BlockChain, sel []int, names []string, order string, silent *c34SilentSet) {
+func c34CheckBlock(r *mc.R, w *c34World, bc, pathBC *BlockChain, sel []int, names []string, removals bool, order string, silent *c34SilentSet) {
 	var (
 		ctx     = context.Background()
 		block   *types.Block
@@ -535,7 +696,37 @@ func c34CheckBlock(r *mc.R, w *c34World, bc *BlockChain, sel []int, names []stri
 	if setup != nil {
 		return
 	}
+	// the same block with the witness collected on a path-scheme chain
+	r.Case(map[string]any{"fork": w.fork.name, "txs": names, "remove": "nothing", "scheme": "path"}, func() error {
+		res, err := pathBC.ProcessBlock(ctx, pathBC.Genesis().Root(), block, ExecuteConfig{MakeWitness: true})
+		if err != nil {
+			return fmt.Errorf("full execution with witness collection failed (path scheme): %v", err)
+		}
+		if res.witness == nil {
+			return fmt.Errorf("no witness collected (path scheme)")
+		}
+		enc, err := rlp.EncodeToBytes(res.witness)
+		if err != nil {
+			return fmt.Errorf("witness encoding: %v", err)
+		}
+		pw := new(stateless.Witness)
+		if err := rlp.DecodeBytes(enc, pw); err != nil {
+			return fmt.Errorf("witness decoding: %v", err)
+		}
+		root, rroot, err := ExecuteStateless(ctx, w.fork.cfg, vm.Config{}, task, pw)
+		if err != nil {
+			return fmt.Errorf("stateless execution with the full witness collected on a path-scheme chain failed: %v", err)
+		}
+		if root != block.Root() || rroot != block.ReceiptHash() {
+			return fmt.Errorf("stateless execution with the full witness (path scheme): state root %x receipt root %x, block has %x %x", root, rroot, block.Root(), block.ReceiptHash())
+		}
+		return nil
+	})
 	r.DistinctHash(mc.Hash64(w.fork.name + fmt.Sprint(names)))
+	if !removals {
+		r.Outcome("removals-not-enumerated(quick:non-core-pair)")
+		return
+	}
 	type item struct {
 		kind string
 		blob string
